@@ -1,5 +1,5 @@
 (** * C14 — corollaries of the decision table. *)
-From Coq Require Import List Bool.
+From Coq Require Import List Bool String.
 Import ListNotations.
 From Attrs Require Import C14.Model C14.Factor.
 
@@ -441,3 +441,15 @@ Proof.
             (DS false false false true false false false false false false false false false false false) no_own BPlain).
   repeat split; reflexivity.
 Qed.
+
+(** ** 7. [__attrs_init__] is produced by the very same script generator call as
+    [__init__] would have been: same class, fields, hooks, frozen/slots/cache_hash,
+    base-attribute map, exception-ness and on_setattr — only the function's name differs. *)
+Theorem attrs_init_same_generator_call_l :
+  ic_args add_attrs_init_call = ic_args add_init_call /\
+  ic_attrs_init add_attrs_init_call = true /\ ic_attrs_init add_init_call = false /\
+  In "self._is_exc"%string (ic_args add_attrs_init_call) /\
+  In "self._cache_hash"%string (ic_args add_attrs_init_call) /\
+  In "self._has_pre_init"%string (ic_args add_attrs_init_call) /\
+  In "self._has_post_init"%string (ic_args add_attrs_init_call).
+Proof. cbn. repeat split; auto 15. Qed.
